@@ -22,6 +22,7 @@ func c05(c *q.Ctx) {
 	poolReload(c)
 	metaCopiesDistinct(c)
 	blockCacheCoherent(c)
+	saveBlockRows(c)
 	keyLockProtocol(c)
 	const st = "bcs/ledger/xledger/state::"
 	const led = "bcs/ledger/xledger/ledger::"
